@@ -13,8 +13,18 @@ func init() {
 	drivers["C16"] = runC16
 }
 
+type CaseSub4 struct {
+	Leaf4 string `sod:"upper"`
+}
+
+type CaseSub3 struct {
+	Leaf3 string `sod:"index,lower"`
+	Sub4  *CaseSub4
+}
+
 type CaseSub2 struct {
 	Leaf2 string `sod:"index,upper"`
+	Sub3  CaseSub3
 }
 
 type CaseSub struct {
@@ -38,7 +48,7 @@ type CaseRec struct {
 	sod.Item
 	U  string   `sod:"index,upper"`
 	L  string   `sod:"lower"`
-	UU string   `sod:"unique,upper"`
+	UU string   `sod:"index,unique,upper"` // three options in one tag
 	LL string   `sod:"index,lower"`
 	LU string   `sod:"lower,unique"` // transformer listed before unique in the tag
 	NS NamedStr `sod:"upper"`        // a named string type carrying a constraint
@@ -88,6 +98,18 @@ var casePaths = []casePath{
 		}
 		return r.In.Sub.Sub2.Leaf2
 	}},
+	{"In.Sub.Sub2.Sub3.Leaf3", false, func(r *CaseRec) string {
+		if r.In == nil || r.In.Sub == nil || r.In.Sub.Sub2 == nil {
+			return ""
+		}
+		return r.In.Sub.Sub2.Sub3.Leaf3
+	}},
+	{"In.Sub.Sub2.Sub3.Sub4.Leaf4", true, func(r *CaseRec) string {
+		if r.In == nil || r.In.Sub == nil || r.In.Sub.Sub2 == nil || r.In.Sub.Sub2.Sub3.Sub4 == nil {
+			return ""
+		}
+		return r.In.Sub.Sub2.Sub3.Sub4.Leaf4
+	}},
 }
 
 func canonCase(upper bool, s string) string {
@@ -118,7 +140,7 @@ func caseStrings(maxLen int) []string {
 func newCaseRec(s string, withIn bool) *CaseRec {
 	r := &CaseRec{U: s, L: s, UU: s, LL: s, LU: "lu" + s, NS: NamedStr(s), Raw: s, CaseEmb: CaseEmb{EU: s}}
 	if withIn {
-		r.In = &CaseIn{Deep: s, Plain: s, Sub: &CaseSub{Leaf: s, Sub2: &CaseSub2{Leaf2: s}}}
+		r.In = &CaseIn{Deep: s, Plain: s, Sub: &CaseSub{Leaf: s, Sub2: &CaseSub2{Leaf2: s, Sub3: CaseSub3{Leaf3: s, Sub4: &CaseSub4{Leaf4: s}}}}}
 	}
 	return r
 }
